@@ -172,6 +172,8 @@ func (ck *checker) kindTag(j int) string {
 		return "dict"
 	case 'S':
 		return "stream-dict"
+	case 'q':
+		return "name-object"
 	}
 	return "reference-object"
 }
@@ -214,9 +216,19 @@ func (ck *checker) isNullInTarget(tv pdf.Object, where string) bool {
 // item compares one array element / dictionary value / chain link.
 func (ck *checker) item(it Item, j, p int, tv pdf.Object, where string) {
 	switch it.K {
-	case 'i':
+	case 'i', 'y':
+		// ('y': the value of an entry whose key is a name of the name family)
 		if tv != pdf.Object(itemInt(j, p)) {
 			ck.f.add("value-differs:integer", "%s: want %d, target has %s", where, itemInt(j, p), hx.Show(tv))
+		}
+	case 'k':
+		want := pdf.Name(nameString(it.R))
+		if tv != pdf.Object(want) {
+			got := hx.Show(tv)
+			if n, isName := tv.(pdf.Name); isName {
+				got = fmt.Sprintf("the name %q", string(n))
+			}
+			ck.f.add("value-differs:name;"+nameTag(it.R), "%s: want the name %q, target has %s", where, string(want), got)
 		}
 	case 's':
 		s, ok := tv.(pdf.String)
@@ -268,6 +280,7 @@ func (ck *checker) item(it Item, j, p int, tv pdf.Object, where string) {
 			return
 		}
 		ck.dictEntries([]pdf.Name{nestedKey}, []Item{it.inner()}, j, p, d, nil, where)
+		// (dictEntries takes the key from the item if it is of kind 'y')
 	default:
 		ck.refItem(it, tv, where)
 	}
@@ -523,7 +536,7 @@ func (ck *checker) dictEntries(keys []pdf.Name, its []Item, j, p0 int, d pdf.Dic
 	want := map[pdf.Name]bool{}
 	for k, it := range its {
 		p := p0 + k
-		key := keys[k]
+		key := entryKey(keys[k], it)
 		want[key] = true
 		tv, present := d[key]
 		w := fmt.Sprintf("%s /%s", where, key)
@@ -540,6 +553,11 @@ func (ck *checker) dictEntries(keys []pdf.Name, its []Item, j, p0 int, d pdf.Dic
 				ck.f.add("empty-array-becomes-null", "%s: the source entry holds an empty array, the target has no such entry (null)", w)
 			} else if it.K == 'd' {
 				ck.f.add("empty-dict-becomes-null", "%s: the source entry holds an empty dictionary, the target has no such entry (null)", w)
+			} else if it.K == 'y' && len(extraKeys(d, keys, its, ignore)) > 0 {
+				// the entry is missing and another one, which the source does not
+				// have, is there: the key was changed
+				ck.f.add("dict-key-differs:"+nameTag(it.R), "%s: the source entry has the key %q, the target has no such entry but the keys %q", where, string(key), extraKeys(d, keys, its, ignore))
+				return
 			} else {
 				ck.f.add("dict-entry-lost", "%s: entry missing in the target", w)
 			}
@@ -547,16 +565,26 @@ func (ck *checker) dictEntries(keys []pdf.Name, its []Item, j, p0 int, d pdf.Dic
 			ck.item(it, j, p, tv, w)
 		}
 	}
+	if extra := extraKeys(d, keys, its, ignore); len(extra) > 0 {
+		ck.f.add("dict-extra-key", "%s: target has extra keys %q", where, extra)
+	}
+}
+
+// extraKeys lists the keys of d (with a value other than null) that the
+// source dictionary does not have.
+func extraKeys(d pdf.Dict, keys []pdf.Name, its []Item, ignore map[pdf.Name]bool) []string {
+	want := map[pdf.Name]bool{}
+	for k, it := range its {
+		want[entryKey(keys[k], it)] = true
+	}
 	var extra []string
 	for k, v := range d {
 		if !want[k] && !ignore[k] && v != nil {
 			extra = append(extra, string(k))
 		}
 	}
-	if len(extra) > 0 {
-		sort.Strings(extra)
-		ck.f.add("dict-extra-key", "%s: target has extra keys %v", where, extra)
-	}
+	sort.Strings(extra)
+	return extra
 }
 
 var stmIgnore = map[pdf.Name]bool{"Length": true, "Filter": true, "DecodeParms": true}
@@ -667,7 +695,7 @@ func (ck *checker) plainValue(o Obj, j int, tv pdf.Object, where string) {
 			}
 			ck.f.add("stream-bytes-differ:"+tag, "%s: stream decodes to %d bytes %q..., want %d bytes %q... (source stream %s, target dict %s)", where, len(data), head(data), len(want), head(want), stmName(o.V), hx.Show(stm.Dict))
 		}
-	case 'r':
+	case 'r', 'q':
 		ck.item(o.It[0], j, 0, tv, where)
 	}
 }
